@@ -21,6 +21,9 @@ pub struct B(pub u8);
 pub struct RR(pub u8);
 #[derive(ReactResource, PartialEq, Debug, Default)]
 pub struct RS(pub u8);
+/// Never named by a system parameter of the harness, so it may be absent while systems run.
+#[derive(ReactResource, PartialEq, Debug, Default)]
+pub struct RT(pub u8);
 
 pub trait CompVal: ReactComponent + PartialEq { fn mk(v: u8) -> Self; fn v(&self) -> u8; }
 impl CompVal for A { fn mk(v: u8) -> Self { A(v) } fn v(&self) -> u8 { self.0 } }
@@ -28,6 +31,7 @@ impl CompVal for B { fn mk(v: u8) -> Self { B(v) } fn v(&self) -> u8 { self.0 } 
 pub trait ResVal: ReactResource + PartialEq { fn mk(v: u8) -> Self; fn v(&self) -> u8; }
 impl ResVal for RR { fn mk(v: u8) -> Self { RR(v) } fn v(&self) -> u8 { self.0 } }
 impl ResVal for RS { fn mk(v: u8) -> Self { RS(v) } fn v(&self) -> u8 { self.0 } }
+impl ResVal for RT { fn mk(v: u8) -> Self { RT(v) } fn v(&self) -> u8 { self.0 } }
 
 pub struct X(pub u32);
 impl Drop for X { fn drop(&mut self) { log(Ev::Drop(self.0)); } }
@@ -133,6 +137,7 @@ macro_rules! with_trigger {
             RTrig::EntityEvent(e, P::Y) => { let $x = entity_event::<Y>(e); $body }
             RTrig::Resource(R::R) => { let $x = resource_mutation::<RR>(); $body }
             RTrig::Resource(R::S) => { let $x = resource_mutation::<RS>(); $body }
+            RTrig::Resource(R::T) => { let $x = resource_mutation::<RT>(); $body }
             RTrig::Insertion(C::A) => { let $x = insertion::<A>(); $body }
             RTrig::Insertion(C::B) => { let $x = insertion::<B>(); $body }
             RTrig::Mutation(C::A) => { let $x = mutation::<A>(); $body }
@@ -483,6 +488,7 @@ fn interp_basic(op: &Op, u: u32, c: &mut Commands, h: &mut H) -> Option<bool>
         {
             R::R => c.react().trigger_resource_mutation::<RR>(),
             R::S => c.react().trigger_resource_mutation::<RS>(),
+            R::T => c.react().trigger_resource_mutation::<RT>(),
         },
         Op::Insert(s, comp, v) =>
         {
@@ -568,7 +574,8 @@ fn interp_basic(op: &Op, u: u32, c: &mut Commands, h: &mut H) -> Option<bool>
             let rt: Vec<RTrig> = trigs.iter().map(|t| h.resolve(t)).collect();
             c.queue(move |w: &mut World|
             {
-                let keep: Vec<RTrig> = { let mut h = w.resource_mut::<H>(); rt.iter().copied().filter(|t| h.wr_keys[k as usize].insert(*t)).collect() };
+                // type-wide and despawn triggers are added once (duplicates of those are not judgeable, DESIGN A4); entity-scoped ones may repeat
+                let keep: Vec<RTrig> = { let mut h = w.resource_mut::<H>(); rt.iter().copied().filter(|t| { let fresh = h.wr_keys[k as usize].insert(*t); fresh || matches!(t, RTrig::EntityEvent(..) | RTrig::EntityInsertion(..) | RTrig::EntityMutation(..) | RTrig::EntityRemoval(..)) }).collect() };
                 log(Ev::Kept { uid: u, n: keep.len() as u8 });
                 if keep.is_empty() { return; }
                 let b = DynBundle::new(&keep);
@@ -604,9 +611,9 @@ fn interp_basic(op: &Op, u: u32, c: &mut Commands, h: &mut H) -> Option<bool>
             let e = h.slots[*s as usize];
             c.queue(move |w: &mut World|
             {
+                // (adding an entity that is already a member replaces its data and registers its triggers once more)
                 let alive = w.get_entity(e).is_ok();
-                let member = w.resource::<H>().ewr_members[k as usize].get(&e).copied().unwrap_or(0) != 0;
-                if !alive || member { log(Ev::Kept { uid: u, n: 0 }); return; }
+                if !alive { log(Ev::Kept { uid: u, n: 0 }); return; }
                 let full: u8 = if k == 0 { 0b11 } else { 0b111 };
                 w.resource_mut::<H>().ewr_members[k as usize].insert(e, full);
                 log(Ev::Kept { uid: u, n: 1 });
@@ -715,6 +722,7 @@ pub fn interp(ops: &[Op], issuer: u8, run: u32, p: &mut PlainParams) -> bool
             {
                 R::R => { p.rr.get_mut(&mut p.c).0 = *v; }
                 R::S => { p.rs.get_mut(&mut p.c).0 = *v; }
+                R::T => {}
             },
             Op::ResSetIfNeq(r, v) =>
             {
@@ -722,6 +730,7 @@ pub fn interp(ops: &[Op], issuer: u8, run: u32, p: &mut PlainParams) -> bool
                 {
                     R::R => p.rr.set_if_neq(&mut p.c, RR(*v)).map(|x| x.0),
                     R::S => p.rs.set_if_neq(&mut p.c, RS(*v)).map(|x| x.0),
+                    R::T => None,
                 };
                 log(Ev::SetRet { uid: u, old });
             }
@@ -729,6 +738,7 @@ pub fn interp(ops: &[Op], issuer: u8, run: u32, p: &mut PlainParams) -> bool
             {
                 R::R => { p.rr.get_noreact().0 = *v; }
                 R::S => { p.rs.get_noreact().0 = *v; }
+                R::T => {}
             },
             _ => {}
         }
@@ -830,6 +840,8 @@ pub fn exec_wop(world: &mut World, op: &WOp, u: u32)
         {
             R::R => world.trigger_resource_mutation::<RR>(),
             R::S => world.trigger_resource_mutation::<RS>(),
+            // (documented to panic when the resource does not exist: only called while it does)
+            R::T => { if world.contains_react_resource::<RT>() { world.trigger_resource_mutation::<RT>(); } }
         },
         WOp::Run(i) =>
         {
@@ -903,7 +915,7 @@ pub fn exec_wop(world: &mut World, op: &WOp, u: u32)
             let e = slot(world, *s);
             match c { C::A => exec_acc::<A>(world, *kind, e, *v, u), C::B => exec_acc::<B>(world, *kind, e, *v, u) }
         }
-        WOp::ResAcc(kind, r, v) => match r { R::R => exec_res_acc::<RR>(world, *kind, *v, u), R::S => exec_res_acc::<RS>(world, *kind, *v, u) },
+        WOp::ResAcc(kind, r, v) => match r { R::R => exec_res_acc::<RR>(world, *kind, *v, u), R::S => exec_res_acc::<RS>(world, *kind, *v, u), R::T => exec_res_acc::<RT>(world, *kind, *v, u) },
         WOp::Move(from, to, c) =>
         {
             let (f, t) = (slot(world, *from), slot(world, *to));
@@ -1000,18 +1012,19 @@ fn res_param_read<T: ResVal>(In(u): In<u32>, r: ReactRes<T>)
 
 fn exec_res_acc<T: ResVal + FromWorld>(world: &mut World, kind: ResAccKind, v: u8, u: u32)
 {
+    let present = world.contains_react_resource::<T>();
     match kind
     {
-        ResAccKind::WorldNoreact => { *world.react_resource_mut_noreact::<T>() = T::mk(v); }
+        // (documented to panic when the resource is missing)
+        ResAccKind::WorldNoreact => { if present { *world.react_resource_mut_noreact::<T>() = T::mk(v); } }
         ResAccKind::WorldGetNoreact => { if let Some(r) = world.get_react_resource_noreact::<T>() { *r = T::mk(v); } }
         ResAccKind::WorldRead =>
         {
-            let a = world.react_resource::<T>().v();
             let b = world.get_react_resource::<T>().map(|r| r.v());
-            let c = world.contains_react_resource::<T>();
-            log(Ev::SetRet { uid: u, old: if b == Some(a) && c { Some(a) } else { Some(255) } });
+            let a = if present { Some(world.react_resource::<T>().v()) } else { None };
+            log(Ev::SetRet { uid: u, old: if a == b { a } else { Some(255) } });
         }
-        ResAccKind::ParamRead => world.syscall(u, res_param_read::<T>),
+        ResAccKind::ParamRead => { if present { world.syscall(u, res_param_read::<T>) } else { log(Ev::SetRet { uid: u, old: None }) } }
         ResAccKind::WorldInsert => world.insert_react_resource(T::mk(v)),
         ResAccKind::CmdInsert => { world.commands().insert_react_resource(T::mk(v)); world.flush(); }
         ResAccKind::Init =>
@@ -1024,6 +1037,8 @@ fn exec_res_acc<T: ResVal + FromWorld>(world: &mut World, kind: ResAccKind, v: u
             let got = world.get_react_resource_or_insert_with(|| T::mk(v)).v();
             log(Ev::SetRet { uid: u, old: Some(got) });
         }
+        ResAccKind::WorldRemove => { let old = world.remove_react_resource::<T>().map(|r| r.v()); log(Ev::SetRet { uid: u, old }); }
+        ResAccKind::CmdRemove => { world.commands().remove_react_resource::<T>(); world.flush(); }
     }
 }
 
@@ -1074,6 +1089,7 @@ fn post_obs(world: &mut World) -> Post
         post.slots.push((alive, a, b));
     }
     post.res = [world.react_resource::<RR>().0, world.react_resource::<RS>().0];
+    post.res_t = world.get_react_resource::<RT>().map(|r| r.0);
     let mut uniq: Vec<Entity> = known.clone();
     uniq.sort();
     uniq.dedup();
@@ -1156,6 +1172,7 @@ fn run_inner(prog: &Arc<Program>)
     app.world_mut().insert_resource(TickProbe);
     app.world_mut().insert_react_resource(RR(0));
     app.world_mut().insert_react_resource(RS(0));
+    app.world_mut().insert_react_resource(RT(0));
     // slots first, so that a world reactor's starting triggers can name them
     let mut slot_ents: Vec<Entity> = Vec::new();
     for (s, (a, b)) in prog.slots.iter().enumerate()
